@@ -552,6 +552,9 @@ func (fr *Frame) intrinsic(st *State, callee *ssa.Function, key string, args []V
 	if strings.HasPrefix(name, "vsliceeq_") {
 		name = "vsliceeq"
 	}
+	if strings.HasPrefix(name, "vvalueeq_") {
+		name = "vvalueeq"
+	}
 	if strings.HasPrefix(name, "vsamefields_") && len(args) == 2 {
 		// field-by-field equality of two struct objects, fields enumerated from go/types at verification time
 		if pt, ok := args[0].T.Underlying().(*types.Pointer); ok {
@@ -569,6 +572,22 @@ func (fr *Frame) intrinsic(st *State, callee *ssa.Function, key string, args []V
 	case "vstreq":
 		if callee.Signature.Recv() == nil && len(args) == 2 {
 			return []Val{{T: types.Typ[types.Bool], C: []string{vc.strEqExt(args[0].C[0], args[1].C[0])}}}, true
+		}
+	case "vvalueeq":
+		if len(args) == 2 {
+			// two interface values: both nil, or same dynamic type and equal content
+			a, b := args[0], args[1]
+			t := "(and (= " + a.C[0] + " " + b.C[0] + ") (= " + a.C[1] + " " + b.C[1] + "))"
+			if sf := vc.prog.specFnIn("valeq", "value"); sf != nil {
+				ve := vc.declareSpecFn(sf)
+				av, bv := a.C[len(a.C)-1], b.C[len(b.C)-1]
+				if len(a.C) == 2 {
+					t = "(or " + t + " (and (= " + a.C[0] + " " + b.C[0] + ") (not (= " + a.C[0] + " 0)) (" + ve + " " + av + " " + bv + ")))"
+				} else {
+					t = "(or (= " + av + " " + bv + ") (and (not (= " + av + " 0)) (not (= " + bv + " 0)) (" + ve + " " + av + " " + bv + ")))"
+				}
+			}
+			return []Val{{T: types.Typ[types.Bool], C: []string{t}}}, true
 		}
 	case "vstreameq":
 		if len(args) == 2 {
@@ -1195,10 +1214,49 @@ func (fr *Frame) streamEqObligations(st *State, a, b Val, pos token.Pos) {
 			arr := "(Array " + isrt + " " + f.s + ")"
 			eqs = append(eqs, "(= (select "+get(a, f.n, arr)+" "+ks+") (select "+get(b, f.n, arr)+" "+ks+"))")
 		}
+		// composite value tokens (kind 40): the payload objects have equal content (valeq), when that relation is declared
+		if sf := vc.prog.specFnIn("valeq", "value"); sf != nil {
+			ve := vc.declareSpecFn(sf)
+			rarr := "(Array " + isrt + " Int)"
+			ra, rb := "(select "+get(a, "tr", rarr)+" "+ks+")", "(select "+get(b, "tr", rarr)+" "+ks+")"
+			ka := "(select " + get(a, "tk", "(Array "+isrt+" "+isrt+")") + " " + ks + ")"
+			eqs = append(eqs, "(=> (= "+ka+" "+vc.idx(40)+") (or (= "+ra+" "+rb+") ("+ve+" "+ra+" "+rb+")))")
+		}
 		// string/bytes payloads: same content (extensional), not necessarily the same string object
 		sarr := "(Array " + isrt + " Str)"
 		sa, sb := "(select "+get(a, "ts", sarr)+" "+ks+")", "(select "+get(b, "ts", sarr)+" "+ks+")"
-		eqs = append(eqs, "(or (= "+sa+" "+sb+") "+vc.strEqExt(sa, sb)+")")
+		payloadEq := "(or (= " + sa + " " + sb + ") " + vc.strEqExt(sa, sb) + ")"
+		// a byte payload that is itself a token stream (nested DataOutputX written as a blob): the two nested streams
+		// agree token by token (one level of nesting, same static bound)
+		if _, hasS := vc.heapSorts["G:ghost.io.S_n"]; hasS {
+			rarr := "(Array " + isrt + " Int)"
+			ra, rb := "(select "+get(a, "tr", rarr)+" "+ks+")", "(select "+get(b, "tr", rarr)+" "+ks+")"
+			sget := func(name, elemSort, r string) string {
+				h := vc.hget(st, "G:ghost.io."+name, "(Array Int "+elemSort+")")
+				return "(select " + h + " " + r + ")"
+			}
+			na, nb := sget("S_n", isrt, ra), sget("S_n", isrt, rb)
+			nested := []string{"(not (= " + ra + " 0))", "(not (= " + rb + " 0))", "(= " + na + " " + nb + ")", "(<= " + na + " " + fmt.Sprint(bound) + ")"}
+			for j := 0; j < bound; j++ {
+				js := vc.idx(int64(j))
+				var teq []string
+				for _, f := range []string{"S_k", "S_i"} {
+					arr := "(Array " + isrt + " " + isrt + ")"
+					teq = append(teq, "(= (select "+sget(f, arr, ra)+" "+js+") (select "+sget(f, arr, rb)+" "+js+"))")
+				}
+				nsa, nsb := "(select "+sget("S_s", sarr, ra)+" "+js+")", "(select "+sget("S_s", sarr, rb)+" "+js+")"
+				teq = append(teq, "(or (= "+nsa+" "+nsb+") "+vc.strEqExt(nsa, nsb)+")")
+				if sf := vc.prog.specFnIn("valeq", "value"); sf != nil {
+					ve := vc.declareSpecFn(sf)
+					nra, nrb := "(select "+sget("S_r", rarr, ra)+" "+js+")", "(select "+sget("S_r", rarr, rb)+" "+js+")"
+					nka := "(select " + sget("S_k", "(Array "+isrt+" "+isrt+")", ra) + " " + js + ")"
+					teq = append(teq, "(=> (= "+nka+" "+vc.idx(40)+") (or (= "+nra+" "+nrb+") ("+ve+" "+nra+" "+nrb+")))")
+				}
+				nested = append(nested, "(=> "+vc.ilt(js, na)+" "+andAll(teq...)+")")
+			}
+			payloadEq = "(or " + payloadEq + " " + andAll(nested...) + ")"
+		}
+		eqs = append(eqs, payloadEq)
 		vc.oblige("assert", top.oblFn, fr.oblName("stream-eq-tok"), fr.curCond, "(=> "+vc.ilt(ks, n1)+" "+andAll(eqs...)+")", fr.pos(pos), fmt.Sprintf("re-encoded stream agrees at token %d", k))
 	}
 }
